@@ -28,7 +28,20 @@ func LiftChunk(c *parse.Chunk) (*Node, error) {
 	return out, nil
 }
 
-var specials = map[string]bool{"var": true, "set": true, "tmp": true, "del": true, "fn": true, "if": true,
+// splitQName splits a qualified name after each non-final ':' ("m:x" -> ["m:"], "x"; "m:" -> [], "m:").
+func splitQName(name string) ([]string, string) {
+	var q []string
+	for {
+		i := strings.IndexByte(name, ':')
+		if i < 0 || i == len(name)-1 {
+			return q, name
+		}
+		q = append(q, name[:i+1])
+		name = name[i+1:]
+	}
+}
+
+var specials = map[string]bool{"use": true, "var": true, "set": true, "tmp": true, "with": true, "del": true, "fn": true, "if": true,
 	"while": true, "for": true, "try": true, "and": true, "or": true, "coalesce": true}
 
 func liftLV(c *parse.Compound) (LV, bool, error) {
@@ -45,7 +58,8 @@ func liftLV(c *parse.Compound) (LV, bool, error) {
 		rest = true
 		name = name[1:]
 	}
-	lv := LV{N: name, Idx: []*Node{}}
+	q, base := splitQName(name)
+	lv := LV{N: base, Idx: []*Node{}, Q: q}
 	for _, arr := range in.Indices {
 		if len(arr.Compounds) != 1 {
 			return LV{}, false, fmt.Errorf("lvalue index group with %d expressions", len(arr.Compounds))
@@ -123,6 +137,51 @@ func liftForm(f *parse.Form) (*Node, error) {
 		switch head {
 		case "var", "set", "tmp":
 			return liftAssign(head, a)
+		case "use":
+			if len(a) < 1 || len(a) > 2 {
+				return nil, fmt.Errorf("use with %d arguments", len(a))
+			}
+			spec, ok := cmpd.StringLiteral(a[0])
+			if !ok {
+				return nil, fmt.Errorf("use: spec is not a literal")
+			}
+			n := &Node{T: "use", Name: spec}
+			if len(a) == 2 {
+				if n.As, ok = cmpd.StringLiteral(a[1]); !ok {
+					return nil, fmt.Errorf("use: alias is not a literal")
+				}
+			}
+			return n, nil
+		case "with":
+			if len(a) < 2 {
+				return nil, fmt.Errorf("with needs assignments and a body")
+			}
+			body, err := liftBlock(a[len(a)-1])
+			if err != nil {
+				return nil, err
+			}
+			n := &Node{T: "with", Body: body}
+			as := a[:len(a)-1]
+			if p, ok := cmpd.Primary(as[0]); ok && p.Type == parse.List {
+				for _, c := range as {
+					p, ok := cmpd.Primary(c)
+					if !ok || p.Type != parse.List {
+						return nil, fmt.Errorf("with: argument must be a list")
+					}
+					an, err := liftAssign("set", p.Elements)
+					if err != nil {
+						return nil, err
+					}
+					n.Assigns = append(n.Assigns, an)
+				}
+			} else {
+				an, err := liftAssign("set", as)
+				if err != nil {
+					return nil, err
+				}
+				n.Assigns = []*Node{an}
+			}
+			return n, nil
 		case "del":
 			n := &Node{T: "del", Lhs: []LV{}}
 			for _, c := range a {
@@ -297,7 +356,8 @@ func liftForm(f *parse.Form) (*Node, error) {
 	}
 	n := &Node{T: "cmd", Args: []*Node{}, Opts: []Opt{}}
 	if bare {
-		n.Head = &Node{T: "name", Name: head}
+		q, base := splitQName(head)
+		n.Head = &Node{T: "name", Name: base, Q: q}
 	} else {
 		h, err := liftCompound(f.Head)
 		if err != nil {
@@ -396,7 +456,8 @@ func liftPrimary(p *parse.Primary) (*Node, error) {
 			ex = true
 			name = name[1:]
 		}
-		return &Node{T: "varx", Name: name, Explode: ex}, nil
+		q, base := splitQName(name)
+		return &Node{T: "varx", Name: base, Explode: ex, Q: q}, nil
 	case parse.List:
 		es, err := liftCompounds(p.Elements)
 		if err != nil {
